@@ -660,6 +660,130 @@ def gen_timed_store(sd):
     return out
 
 
+# ---- sd.py: ServiceAnnouncer.queue_send (C15) ----
+def gen_queue_send(sd):
+    f = fn_ast(sd.ServiceAnnouncer.queue_send)
+    if [a.arg for a in f.args.args] != ["self", "entry", "remote"]:
+        raise Abort("queue_send: unexpected parameters")
+    b = [s for s in body_of(f) if not is_noise(s)]
+    if len(b) != 4:
+        raise Abort("queue_send: expected four statements")
+    s0, s1, s2, s3 = b
+    # if self.timings.SEND_COLLECTION_TIMEOUT == 0: self.sd.send_sd([entry], remote=remote); return
+    ok = (isinstance(s0, ast.If) and not s0.orelse and isinstance(s0.test, ast.Compare) and len(s0.test.ops) == 1 and isinstance(s0.test.ops[0], ast.Eq)
+          and dotted(s0.test.left) == "self.timings.SEND_COLLECTION_TIMEOUT" and isinstance(s0.test.comparators[0], ast.Constant) and s0.test.comparators[0].value == 0
+          and len(s0.body) == 2 and isinstance(s0.body[1], ast.Return) and s0.body[1].value is None and isinstance(s0.body[0], ast.Expr) and isinstance(s0.body[0].value, ast.Call))
+    if ok:
+        c = s0.body[0].value
+        ok = (dotted(c.func) == "self.sd.send_sd" and len(c.args) == 1 and isinstance(c.args[0], ast.List) and [getattr(e, "id", None) for e in c.args[0].elts] == ["entry"]
+              and len(c.keywords) == 1 and c.keywords[0].arg == "remote" and getattr(c.keywords[0].value, "id", None) == "remote")
+    if not ok:
+        raise Abort("queue_send: unexpected zero-timeout bypass")
+    # queue = self.send_queues.get(remote)
+    ok = (isinstance(s1, ast.Assign) and getattr(s1.targets[0], "id", None) == "queue" and isinstance(s1.value, ast.Call) and dotted(s1.value.func) == "self.send_queues.get"
+          and [getattr(a, "id", None) for a in s1.value.args] == ["remote"] and not s1.value.keywords)
+    if not ok:
+        raise Abort("queue_send: the collector must be looked up under the destination as given")
+    # if queue is None or queue.done: self.send_queues[remote] = queue = SendCollector(self.timings.SEND_COLLECTION_TIMEOUT, self.sd.send_sd, remote=remote)
+    t = s2.test if isinstance(s2, ast.If) else None
+    ok = (t is not None and not s2.orelse and isinstance(t, ast.BoolOp) and isinstance(t.op, ast.Or) and len(t.values) == 2
+          and isinstance(t.values[0], ast.Compare) and getattr(t.values[0].left, "id", None) == "queue" and isinstance(t.values[0].ops[0], ast.Is)
+          and isinstance(t.values[0].comparators[0], ast.Constant) and t.values[0].comparators[0].value is None and dotted(t.values[1]) == "queue.done"
+          and len(s2.body) == 1 and isinstance(s2.body[0], ast.Assign) and len(s2.body[0].targets) == 2 and isinstance(s2.body[0].value, ast.Call))
+    if ok:
+        a = s2.body[0]
+        tg = a.targets
+        c = a.value
+        ok = (isinstance(tg[0], ast.Subscript) and dotted(tg[0].value) == "self.send_queues" and getattr(tg[0].slice, "id", None) == "remote" and getattr(tg[1], "id", None) == "queue"
+              and getattr(c.func, "id", None) == "SendCollector" and len(c.args) == 2 and dotted(c.args[0]) == "self.timings.SEND_COLLECTION_TIMEOUT"
+              and dotted(c.args[1]) == "self.sd.send_sd" and len(c.keywords) == 1 and c.keywords[0].arg == "remote" and getattr(c.keywords[0].value, "id", None) == "remote")
+    if not ok:
+        raise Abort("queue_send: unexpected collector creation")
+    # queue.append(entry)
+    ok = (isinstance(s3, ast.Expr) and isinstance(s3.value, ast.Call) and dotted(s3.value.func) == "queue.append" and [getattr(a, "id", None) for a in s3.value.args] == ["entry"])
+    if not ok:
+        raise Abort("queue_send: unexpected last statement")
+    return ["Definition gen_queue_send (timeout_zero open_collector : bool) : list qact :=\n"
+            "  if timeout_zero then (QSendNow :: []) else ((if negb open_collector then (QNewCollector :: []) else []) ++ (QAppend :: [])).\n"]
+
+
+# ---- sd.py: ServiceAnnouncer.handle_findservice, ServiceInstance.matches_find / _answer_find (C12) ----
+def src_norm(node):
+    return ast.dump(node, annotate_fields=False, include_attributes=False)
+
+
+def expect_src(node, text, what):
+    """the statement must be exactly this source text (compared as syntax trees)"""
+    want = ast.parse(textwrap.dedent(text)).body[0]
+    if src_norm(node) != src_norm(want):
+        raise Abort(what + ": unexpected shape")
+
+
+def gen_find_answer(sd):
+    out = []
+    f = fn_ast(sd.ServiceAnnouncer.handle_findservice)
+    if [a.arg for a in f.args.args] != ["self", "entry", "addr", "received_over_multicast"]:
+        raise Abort("handle_findservice: unexpected parameters")
+    b = [s for s in body_of(f) if not is_noise(s)]
+    if len(b) != 5:
+        raise Abort("handle_findservice: expected five statements")
+    expect_src(b[0], "matching_instances = []", "handle_findservice (1)")
+    expect_src(b[1], """
+        for instance in self.announcing_services:
+            if instance.matches_find(entry, addr):
+                matching_instances.append(instance)
+        """, "handle_findservice (2)")
+    expect_src(b[2], """
+        if not matching_instances:
+            return
+        """, "handle_findservice (3)")
+    expect_src(b[3], """
+        if received_over_multicast:
+            delay = random.uniform(
+                self.timings.REQUEST_RESPONSE_DELAY_MIN,
+                self.timings.REQUEST_RESPONSE_DELAY_MAX,
+            )
+
+            def call(func) -> None:
+                asyncio.get_event_loop().call_later(delay, func, addr)
+
+        else:
+
+            def call(func) -> None:
+                asyncio.get_event_loop().call_soon(func, addr)
+        """, "handle_findservice (4)")
+    expect_src(b[4], """
+        for instance in matching_instances:
+            call(instance._answer_find)
+        """, "handle_findservice (5)")
+    out.append("Definition gen_handle_find (any_match multicast : bool) : list fact :=\n"
+               "  if negb any_match then [] else if multicast then (FDraw :: FLaterEach :: []) else (FSoonEach :: []).\n")
+    # ServiceInstance.matches_find: not ready -> False, else the service's wildcard rules
+    f = fn_ast(sd.ServiceInstance.matches_find)
+    b = [s for s in body_of(f) if not is_noise(s)]
+    if [a.arg for a in f.args.args] != ["self", "entry", "addr"] or len(b) != 2 or not isinstance(b[0], ast.If) or b[0].orelse:
+        raise Abort("ServiceInstance.matches_find: unexpected shape")
+    guard = [s for s in b[0].body if not is_noise(s)]
+    expect_src(ast.If(test=b[0].test, body=guard, orelse=[]), """
+        if not self._can_answer_offers:
+            return False
+        """, "ServiceInstance.matches_find (1)")
+    expect_src(b[1], "return self.service.matches_find(entry)", "ServiceInstance.matches_find (2)")
+    out.append("Definition gen_inst_matches_find (can_answer service_matches : bool) : bool :=\n"
+               "  if negb can_answer then false else service_matches.\n")
+    # ServiceInstance._answer_find: ready WHEN THE ANSWER FIRES
+    f = fn_ast(sd.ServiceInstance._answer_find)
+    b = [s for s in body_of(f) if not is_noise(s)]
+    if [a.arg for a in f.args.args] != ["self", "remote"] or len(b) != 1:
+        raise Abort("_answer_find: unexpected shape")
+    expect_src(b[0], """
+        if self._can_answer_offers:
+            self._send_offer(remote)
+        """, "_answer_find")
+    out.append("Definition gen_answer_find (can_answer : bool) : list fact :=\n  if can_answer then (FSendOffer :: []) else [].\n")
+    return out
+
+
 # ---- service.py: SimpleService.message_received (the reply decision chain of C16) ----
 MSG_ATTR = {"service_id": "m_sid m", "interface_version": "m_iv m", "method_id": "m_mid m", "message_type": "m_mt m", "return_code": "m_rc m"}
 SELF_ATTR = {"service_id": "svc_id", "version_major": "ver"}
@@ -772,7 +896,7 @@ def main():
         import someip.config as cfg
         import someip.sd as sd
         import someip.service as svc
-        parts = gen_matchers(cfg) + gen_check_received(sd) + gen_assign_outgoing(sd) + gen_skeletons(sd) + gen_inst_subscribe(sd) + gen_subscriber(sd) + gen_timed_store(sd) + gen_service(svc)
+        parts = gen_matchers(cfg) + gen_check_received(sd) + gen_assign_outgoing(sd) + gen_skeletons(sd) + gen_inst_subscribe(sd) + gen_subscriber(sd) + gen_timed_store(sd) + gen_queue_send(sd) + gen_find_answer(sd) + gen_service(svc)
     except Abort as exc:
         print("gen_logic: ABORT:", exc)
         return 2
